@@ -61,6 +61,10 @@ GENERIC = [  # decorated PEP 695 generics: decorators, type parameters and argum
 NESTED1 = [  # blocks written on one line inside blocks: the trailing comment of the line belongs to the extent of each of them
     "if a:\n    if b: c   \nx\n",
     "def f():\n    for i in j:\n        while k: l = [m]  \n    return n  ",
+    # nested blocks followed by a comment and further comment lines (a gap of several lines after the blocks' common last line)
+    "if a:\n  if b:\n    pass  # c1\n    # c2\n    # c3\nx = 1\n",
+    # a block at the end of an except handler / case that is followed by another section of the same statement
+    "try:\n    a\nexcept E:\n    if b: c  # c1\nelse:\n    d\nmatch s:\n    case 1:\n        while e: f  # c2\n    case _: pass",
 ]
 PROGS = BASE[:46] + EXTRA + BASE[46:] + FSTR + MBML + GENERIC + NESTED1  # positional case ids: later additions go to the end
 for _p in PROGS:
